@@ -3,7 +3,7 @@ C09 — macro expansion follows C11 6.10.3 and terminates.
 
 Property theorems only; helper lemmas live in Lemmas/PPArgs.lean, Lemmas/PPLemmas.lean, Lemmas/PPTerm.lean,
 Lemmas/PPSubst.lean, and (termination for every table) Lemmas/C09Measure.lean, Lemmas/C09Subst.lean, Lemmas/C09Fuel.lean.  The model is Model/PP.lean (preprocess.c as it is now), the specification Spec/PPSpec.lean
-(C11 6.10.3.1–6.10.3.3 in the standard's phases, with placemarkers).
+(C11 6.10.3.1–6.10.3.3 in the standard's phases, with placemarkers).  `#`: Lemmas/C09Stringize.lean.
 -/
 import ChibiVerif.Model.PP
 import ChibiVerif.Spec.PPSpec
@@ -246,67 +246,99 @@ def modelSubst (lx : String → LexOne) (full : List Tok → List Tok) (body : L
 /-- **C09 (substitution), full statement**: whenever C11 6.10.3.1–6.10.3.3 (Spec/PPSpec.lean, with placemarkers)
     defines the replacement of an invocation, `subst` produces exactly those spellings — for every lexer, every
     pre-expander, every replacement list and every argument list.  FALSE for chibicc: see
-    `Findings.C09.C09_finding_placemarker` (known finding C09-placemarker) and
-    `Findings.C09.C09_finding_stringize_backslash` (known finding C09-stringize-backslash-outside-literal). -/
+    `Findings.C09.C09_finding_placemarker` (known finding C09-placemarker, the only one left: the second refutation,
+    C09-stringize-backslash-outside-literal, was repaired in /repo by `fix:` 6fecbd6 — `C09_stringize_spec` below,
+    `Findings.C09.repaired_stringize_backslash`). -/
 def C09_subst_spec_Statement : Prop :=
   ∀ (lx : String → LexOne) (full : List Tok → List Tok) (body : List Tok) (args : List MacroArg) (s : List Tok),
     ChibiVerif.Spec.PPSpec.subst lx full true body args = .ok s →
       ∃ m, modelSubst lx full body args = .ok m ∧ spell m = spell s
 
 /-- **C09 (substitution), proved part**: for every lexer, every pre-expander, every replacement list and every
-    argument list *outside the regions of the two known findings* — `NoPlacemarkerChain body args` (no `p ## q ##`
-    with both arguments empty: C09-placemarker) and `StringizeLiteralSafe body args` (no `\` or `"` outside
-    literals in a stringized argument: C09-stringize-backslash-outside-literal) — and without the constructs that
+    argument list *outside the region of the one known finding* — `NoPlacemarkerChain body args` (no `p ## q ##`
+    with both arguments empty: C09-placemarker) — and without the constructs that
     are not C11 6.10.3 or are unspecified by it (`NoExtension`: GNU `, ## __VA_ARGS__`, `__VA_OPT__(`, `## ##`,
-    `## #`), whenever the specification defines the replacement, `subst` produces exactly its spellings.
+    `## #`), whenever the specification defines the replacement, `subst` produces exactly its spellings; stringized
+    arguments are arbitrary (`\` and `"` inside and outside literals).
     Induction over the replacement list with "newest emitted token vs newest element of the paste stack" as
     invariant (Lemmas/PPSubst.lean, `subst_sim`).
     MISSING: `__VA_OPT__` and the GNU comma (specified in Spec/PPSpec.lean, tied by the check, not proved);
     the converse direction (the specification rejects whatever `subst` rejects) is not claimed. -/
 theorem C09_subst_spec_partial (lx : String → LexOne) (full : List Tok → List Tok) (body : List Tok)
     (args : List MacroArg) (s : List Tok)
-    (hpm : NoPlacemarkerChain body args) (hbs : StringizeLiteralSafe body args)
+    (hpm : NoPlacemarkerChain body args)
     (hext : NoExtension body args) (hfresh : FreshArgs args)
     (hspec : ChibiVerif.Spec.PPSpec.subst lx full true body args = .ok s) :
     ∃ m, modelSubst lx full body args = .ok m ∧ spell m = spell s := by
-  obtain ⟨m, st', hm, hs⟩ := subst_spec_of_region lx full body args s hpm hbs hext hfresh hspec
+  obtain ⟨m, st', hm, hs⟩ := subst_spec_of_region lx full body args s hpm hext hfresh hspec
   refine ⟨m, ?_, hs⟩
   unfold modelSubst
   have : (fun (st : St) (ts : List Tok) => (Except.ok (full ts, st) : Except Err (List Tok × St))) = purePP full := rfl
   rw [this, hm]
   rfl
 
-/-- non-vacuity: `#define g(x,y,z) a x ## y ## z # x y` with `g(1, ,3 4)` satisfies all four hypotheses (an empty
+/-- non-vacuity: `#define g(x,y,z) a x ## y ## z # x y` with `g(1, ,3 4)` satisfies all three hypotheses (an empty
     operand in the middle of a `##` chain, a stringized and a pre-expanded parameter), the specification defines
     the result, and it is `a 13 4 "1"` followed by the (empty) expansion of `y` -/
 example :
     let body : List Tok := [tk "a", tk "x", tk "##" .punct, tk "y", tk "##" .punct, tk "z", tk "#" .punct, tk "x", tk "y"]
     let args : List MacroArg := [{ name := "x", toks := [tk "1" .num] }, { name := "y", toks := [] },
                                  { name := "z", toks := [tk "3" .num, tk "4" .num] }]
-    NoPlacemarkerChain body args ∧ StringizeLiteralSafe body args ∧ NoExtension body args ∧ FreshArgs args ∧
+    NoPlacemarkerChain body args ∧ NoExtension body args ∧ FreshArgs args ∧
     (ChibiVerif.Spec.PPSpec.subst Lex.lexOne id true body args).map spell
       = .ok [(.ident, "a"), (.num, "13"), (.num, "4"), (.str, "\"1\"")] ∧
     (modelSubst Lex.lexOne id body args).map spell
       = .ok [(.ident, "a"), (.num, "13"), (.num, "4"), (.str, "\"1\"")] := by decide
 
-/-- **C09 (`#`), exact.**  For every argument, `stringize` (= `quote_string(join_tokens(arg))`) spells the string
-    literal of C11 6.10.3.2p2 **if and only if** no token of the argument has a `\` or `"` outside a string literal or
-    character constant (`strSafeTok`): the region `StringizeLiteralSafe` of known finding
-    C09-stringize-backslash-outside-literal cannot be narrowed at the `#` operator — every stringization inside it is
-    wrong (strictly longer than the standard's text), every one outside it is right. -/
-theorem C09_stringize_exact (hash : Tok) (arg : List Tok) :
-    (stringize hash arg).text = (ChibiVerif.Spec.PPSpec.stringizeSpec hash arg).text ↔ ∀ t ∈ arg, strSafeTok t = true := by
-  constructor
-  · intro h t ht
-    cases hs : strSafeTok t with
-    | true => rfl
-    | false => exact absurd h (stringize_ne_spec hash arg ⟨t, ht, hs⟩)
-  · intro h
-    exact (stringize_eq_spec hash arg h).1
+/-- non-vacuity inside the former second region: C11 6.10.3.5 EXAMPLE 4, `#define str(s) # s` with `str(: @\n)` — a `\`
+    outside any literal — satisfies the hypotheses, and model and specification both give `": @\n"` -/
+example :
+    let body : List Tok := [tk "#" .punct, tk "s"]
+    let args : List MacroArg := [{ name := "s", toks := [tk ":" .punct, { kind := .punct, text := "@", hasSpace := true },
+                                                         tk "\\" .punct, tk "n"] }]
+    NoPlacemarkerChain body args ∧ NoExtension body args ∧ FreshArgs args ∧ ¬ StringizeLiteralSafe body args ∧
+    (ChibiVerif.Spec.PPSpec.subst Lex.lexOne id true body args).map spell = .ok [(.str, "\": @\\n\"")] ∧
+    (modelSubst Lex.lexOne id body args).map spell = .ok [(.str, "\": @\\n\"")] := by decide
 
-/-- both sides occur: `"a\n" + c` is safe (the backslash is inside a literal), `: @ \ n` is not -/
-example : (∀ t ∈ [tk "\"a\\n\"" .str, tk "+" .punct, tk "c"], strSafeTok t = true) ∧
-    ¬ (∀ t ∈ [tk ":" .punct, tk "@" .punct, tk "\\" .punct, tk "n"], strSafeTok t = true) := by decide
+/-- **C09 (`#`).**  For **every** `#` token and **every** argument — any tokens, `\` and `"` inside and outside string
+    literals and character constants of any prefix, any spacing — `stringize` (the two copy loops of preprocess.c after
+    `fix:` 6fecbd6) produces the token C11 6.10.3.2p2 prescribes (Spec/PPSpec.lean `stringizeSpec`: the spellings of
+    the argument's tokens, one space where there was white space between them, `\` inserted before each `"` and `\` of a
+    string literal or character constant and nowhere else, the whole between `"`): same spelling, a string literal, the
+    spacing of the `#`.  Replaces `C09_stringize_exact`, which said that the formula before the repair was right exactly on
+    the literal-safe arguments (now `stringizeOld_ne_spec`, Lemmas/C09Stringize.lean, and Findings/C09.lean). -/
+theorem C09_stringize_spec (hash : Tok) (arg : List Tok) :
+    (stringize hash arg).text = (ChibiVerif.Spec.PPSpec.stringizeSpec hash arg).text ∧
+    (stringize hash arg).kind = (ChibiVerif.Spec.PPSpec.stringizeSpec hash arg).kind ∧
+    (stringize hash arg).hasSpace = (ChibiVerif.Spec.PPSpec.stringizeSpec hash arg).hasSpace ∧
+    (stringize hash arg).atBol = (ChibiVerif.Spec.PPSpec.stringizeSpec hash arg).atBol :=
+  ⟨(stringize_eq_spec hash arg).1, (stringize_eq_spec hash arg).2, rfl, rfl⟩
+
+/-- evaluated on the standard's arguments: `: @\n` (a `\` outside a literal stays single) and
+    `strncmp("abc\0d", "abc", '\4') == 0` (those inside literals are doubled, the `"` escaped) -/
+example :
+    (stringize (tk "#" .punct) [tk ":" .punct, { kind := .punct, text := "@", hasSpace := true }, tk "\\" .punct, tk "n"]).text
+      = "\": @\\n\"" ∧
+    (stringize (tk "#" .punct) [tk "strncmp", tk "(" .punct, tk "\"abc\\0d\"" .str, tk "," .punct,
+        { kind := .str, text := "\"abc\"", hasSpace := true }, tk "," .punct, { kind := .other, text := "'\\4'", hasSpace := true },
+        tk ")" .punct, { kind := .punct, text := "==", hasSpace := true }, { kind := .num, text := "0", hasSpace := true }]).text
+      = "\"strncmp(\\\"abc\\\\0d\\\", \\\"abc\\\", '\\\\4') == 0\"" := by decide
+
+/-- **C09 (`#`), what the model leaves out.**  The C function passes its buffer to `tokenize()` and returns the first
+    token of the result; the model returns the buffer as one string token.  If every token of the argument is
+    literal-safe (`strSafeTok`: a string literal, a character constant, or a spelling without `\` and `"`) and no
+    spelling contains a new-line character (`strzOkTok`; true of every token `tokenize` makes), the buffer is exactly one
+    string literal for the lexer — so nothing is left out there.  Otherwise (a `\` outside a literal in front of the
+    closing quote, as in `str(\)`) the result need not be a valid string literal and C11 6.10.3.2p2 makes the behaviour
+    undefined; the check does not compare such runs (`skipped_ub`). -/
+theorem C09_stringize_wellformed (hash : Tok) (arg : List Tok) (h : ∀ t ∈ arg, strzOkTok t = true) :
+    Lex.lexOne (stringize hash arg).text = .one .str :=
+  stringize_wellformed hash arg h
+
+/-- non-vacuity: `"a\n" + c` satisfies the hypothesis; and the hypothesis is needed: for the argument `\` the buffer is
+    `"\"`, an unterminated literal (chibicc: "unclosed string literal") -/
+example : (∀ t ∈ [tk "\"a\\n\"" .str, tk "+" .punct, tk "c"], strzOkTok t = true) ∧
+    Lex.lexOne (stringize (tk "#" .punct) [tk "\\" .punct]).text = .error := by decide
 
 /-! ## `__COUNTER__` -/
 
